@@ -285,6 +285,66 @@ pub fn run(tier: Tier) {
     part.outcome(format!("batch([12288,6144])={:?}", fh::felt_batch_inv(&[12288, 6144])));
     ctx.add_part(part);
 
+    // call histories on one fresh thread: a result must not depend on the calls made before it (memo of the last
+    // operation, remembered argument or result)
+    {
+        let inv2 = inv.clone();
+        let r = crate::sched::on_fresh_thread(move || {
+            let mut bad: Vec<String> = vec![];
+            let mut n = 0u64;
+            let mut chk = |what: String, got: u32, want: i64, bad: &mut Vec<String>| {
+                if got as i64 != want && bad.len() < 6 {
+                    bad.push(format!("{} = {} expected {}", what, got, want));
+                }
+            };
+            // inverse: x, 0, 0, x, x for every residue, in one long history
+            for x in 0..Q32 {
+                for (k, a) in [x, 0, 0, x, x, 1].into_iter().enumerate() {
+                    n += 1;
+                    chk(format!("inverse_or_zero({}) as call {} of the history [x, 0, 0, x, x, 1] with x = {}", a, k + 1, x), fh::felt_inv(a), inv2[a as usize], &mut bad);
+                }
+            }
+            // every triple over a small set, for inverse, negation and the centred representative
+            let small = [0u32, 1, 2, 6144, 6145, 12288, 5];
+            for &a in &small {
+                for &b in &small {
+                    for &c in &small {
+                        for x in [a, b, c] {
+                            n += 3;
+                            chk(format!("inverse_or_zero({}) in the history {:?}", x, [a, b, c]), fh::felt_inv(x), inv2[x as usize], &mut bad);
+                            chk(format!("-Felt({}) in the history {:?}", x, [a, b, c]), fh::felt_neg(x), (-(x as i64)).rem_euclid(Q), &mut bad);
+                        }
+                    }
+                }
+            }
+            // binary operations: (a,b), (b,a), (a,a), (a,b) again, with one operand from the small set
+            for &a in &small {
+                for b in (0..Q32).step_by(7) {
+                    for (x, y) in [(a, b), (b, a), (a, a), (a, b), (b, b)] {
+                        n += 3;
+                        chk(format!("Felt({}) * Felt({}) in a history around ({}, {})", x, y, a, b), fh::felt_mul(x, y), (x as i64 * y as i64) % Q, &mut bad);
+                        chk(format!("Felt({}) + Felt({}) in a history around ({}, {})", x, y, a, b), fh::felt_add(x, y), (x as i64 + y as i64) % Q, &mut bad);
+                        chk(format!("Felt({}) - Felt({}) in a history around ({}, {})", x, y, a, b), fh::felt_sub(x, y), (x as i64 - y as i64).rem_euclid(Q), &mut bad);
+                    }
+                }
+            }
+            (n, bad)
+        });
+        let mut part = Part::new("call_histories", "on one fresh thread, one long history: inverse_or_zero along [x, 0, 0, x, x, 1] for every residue x; every triple over {0,1,2,6144,6145,12288,5} for inverse and negation; add / sub / mul along (a,b), (b,a), (a,a), (a,b), (b,b) for a in that set and every 7th b: every result is the one of the same call made alone");
+        match r {
+            Ok((n, bad)) => {
+                part.states = n;
+                part.transitions = n;
+                part.validated = n;
+                for b in bad {
+                    ctx.violation(format!("felt-history:{}", b.split('(').next().unwrap_or("")), format!("{} [call history on one thread]", b), json!({"kind":"felt-history"}));
+                }
+            }
+            Err(e) => ctx.violation("felt-history:panic".to_string(), format!("panic in the call history: {}", e), json!({"kind":"felt-history"})),
+        }
+        part.exhaustive = true;
+        ctx.add_part(part);
+    }
     ctx.assume("reference = i64 arithmetic with rem_euclid; inverse table by exhaustive search");
     ctx.finish();
 }
@@ -303,6 +363,7 @@ pub fn replay(case: &Value) -> Result<Option<String>, String> {
             let v = case.get("v").and_then(|x| x.as_i64()).ok_or("v")? as i16;
             Ok(check_new(v))
         }
+        "felt-history" => Err("re-run ./vf check C12 (the history is enumerated deterministically)".into()),
         "batch" => {
             let v: Vec<u32> = case
                 .get("v")
